@@ -164,5 +164,6 @@ def run(chk, facts, info):
     u = facts.unit('as.c')
     cons = c20.rule_r1(_Sub(chk, 'C19-R6', lambda key: False), facts, u, P)
     c20.rule_r4(_Sub(chk, 'C19-R6', lambda key: True), facts, u, P, cons)
+    clear_functions_rule(chk, facts, P, 'C19-R7')
     chk.note('Decided: byte-swap parity of the listing, arguments and position of the debug/use-list bookkeeping, listing '
              'after code production, reports after the last pass. Not decided: rendered listing/MAP/share text.')
